@@ -929,7 +929,7 @@ impl Shared {
 }
 
 /// Malformed inbound data, one per class listed in property C08.
-pub const GARBAGE: [&[u8]; 7] = [
+pub const GARBAGE: [&[u8]; 14] = [
     &[0xF0, 0x00],                               // AUTH: unsupported type
     &[0x40, 0x81, 0x00, 0x00, 0x01],             // non-canonical remaining length
     &[0xD1, 0x00],                               // PINGRESP with flags
@@ -937,6 +937,13 @@ pub const GARBAGE: [&[u8]; 7] = [
     &[0x40, 0x01, 0x00],                         // PUBACK truncated
     &[0xD0, 0x01, 0x00],                         // trailing byte
     &[0x20, 0x03, 0x00, 0x00, 0x00],             // well-formed but invalid here: a second CONNACK
+    &[0x00, 0x00],                               // reserved packet type 0
+    &[0x0B, 0x02, 0x00, 0x01],                   // reserved packet type 0 with flags and a body
+    &[0xC0, 0x00],                               // PINGREQ: a packet only clients send
+    &[0x82, 0x06, 0x00, 0x01, 0x00, 0x00, 0x01, 0x61], // SUBSCRIBE: client-only (with a legal body)
+    &[0x60, 0x02, 0x00, 0x01],                   // PUBREL without its mandatory flags
+    &[0xE1, 0x00],                               // DISCONNECT with flags
+    &[0x30, 0x05, 0x00, 0x02, 0xC3, 0x28, 0x00], // PUBLISH whose topic is not UTF-8
 ];
 
 fn mask_all_but_first(n: usize) -> u64 {
